@@ -173,6 +173,8 @@ def finish_common(flow, run, hits, bad, scen):
         bad("C15", "an argument naming a variable was read after a later argument expression had reassigned it: calls %s results %s" % (run["calls"], run["results"]))
     if run.get("ctx_bad"):
         bad("C09", "functions %s did not receive the directive's context" % run["ctx_bad"])
+    if not flow.has_conc and run.get("gomaxprocs") and run["max_inflight"] > max(run["gomaxprocs"], 4):
+        bad("C03", "%d task functions in flight in a flow without cff.Concurrency under GOMAXPROCS=%d: the default limit is max(GOMAXPROCS, 4)" % (run["max_inflight"], run["gomaxprocs"]))
     if flow.has_conc and run["conc"] > 0 and run["max_inflight"] > run["conc"]:
         bad("C03", "%d task functions in flight with Concurrency(%d)" % (run["max_inflight"], run["conc"]))
     if run.get("leaked", 0) > 0 or not run.get("quiesced", True):
@@ -221,6 +223,7 @@ def split_functions(text):
     return out
 
 
+@common.serialised("gen")
 def observe(seed, tier):
     key = "gen-%s-%s-%d-%s" % (common.repo_tree_hash(), _hash_sources(), seed, tier)
     cpath = os.path.join(common.CACHE, key + ".json")
@@ -259,6 +262,12 @@ def observe(seed, tier):
             hit("C13", "cff failed on a package of well-formed flows (exit %d): %s" % (rc, out.strip().split("\n")[-1][:200]),
                 {"output": out[-4000:], "module": mod})
             return mod, gdir
+        # every file with directives has an output
+        for fn in sorted(os.listdir(gdir)):
+            if re.match(r"flows\w*\.go$", fn) and not fn.endswith("_gen.go") and not os.path.exists(os.path.join(gdir, fn[:-3] + "_gen.go")):
+                summary["build_ok"] = False
+                hit("C13", "cff exited 0 but wrote no output for %s, which contains directives: without the cff tag its functions do not exist" % fn,
+                    {"file": fn, "source_head": open(os.path.join(gdir, fn)).read()[:1500], "module": mod, "cff_output": out[-1000:]})
         # the output must type-check without the cff tag and contain no directive call
         for fn in sorted(os.listdir(gdir)):
             if fn.endswith("_gen.go"):
@@ -327,6 +336,11 @@ def observe(seed, tier):
                             if t["pred"] is not None and r.random() < 0.3:
                                 sl["q%d" % t["id"]] = r.randint(1, 200)
                     plan.append({"flow": f.name(), "label": label, "conc": cval, "scenario": sc, "sleeps": sl})
+        for f in flows:
+            if getattr(f, "wide", False):
+                # default concurrency: with GOMAXPROCS=2 at most max(2,4) task functions may be in flight
+                plan.append({"flow": f.name(), "label": "wide", "conc": 0, "scenario": {}, "gomaxprocs": 2,
+                             "sleeps": {"t%d" % t["id"]: 3000 for t in f.tasks}})
         for fi, f in enumerate(flows):
             if fi % 3 == 0:
                 plan.append({"flow": f.name(), "label": "precancel", "conc": [1, 2, 0][fi % 3], "scenario": {}, "sleeps": {}, "precancel": True})
